@@ -127,7 +127,17 @@ def _(c):
     c.ens("plausible_bounds_map_to_unit", "forall(self.D, lambda j: result[2][0][j] == -1 and result[3][0][j] == 1)", top=True, props=["C11"])
     G1, G2 = "result[4](ghost.x1)[0][j]", "result[4](ghost.x2)[0][j]"
     c.ens("forward_increasing_affine", "forall(self.D, lambda j: implies(not truthy(self.apply_log_t[0][j]) and ghost.x1[0][j] < ghost.x2[0][j], " + G1 + " < " + G2 + "))", top=True, props=["C11"])
+    c.ensures[-1].from_path_condition_only = True  # follows from g_on_affine_coordinates + mono_affine (both on the path) by substitution
+    # unfolding lemma for the forward map on log coordinates (proved where g is defined, used by forward_increasing_log): splits
+    # one expensive query into a definitional step and an arithmetic step
+    LOGX2 = "np.log(np.abs(ghost.x2) + (ghost.x2 == 0))[0][j]"
+    c.lemma_at("lbtest = self.orig_lb.copy()", {
+        "g_on_log_coordinates": "forall(self.D, lambda j: implies(truthy(self.apply_log_t[0][j]), g(ghost.x1)[0][j] == (" + LOGX + " - mu[0][j]) / gamma[0][j] and "
+                                "g(ghost.x2)[0][j] == (" + LOGX2 + " - mu[0][j]) / gamma[0][j]))",
+        "g_on_affine_coordinates": "forall(self.D, lambda j: implies(not truthy(self.apply_log_t[0][j]), g(ghost.x1)[0][j] == (ghost.x1[0][j] - mu[0][j]) / gamma[0][j] and "
+                                   "g(ghost.x2)[0][j] == (ghost.x2[0][j] - mu[0][j]) / gamma[0][j]))"}, props=["C11"])
     c.ens("forward_increasing_log", "forall(self.D, lambda j: implies(truthy(self.apply_log_t[0][j]) and ghost.x1[0][j] > 0 and ghost.x1[0][j] < ghost.x2[0][j], " + G1 + " < " + G2 + "))", top=True, props=["C11"])
+    c.ensures[-1].from_path_condition_only = True  # follows from g_on_log_coordinates + mono_logz (both on the path) by substitution
     FL_ = "truthy(self.apply_log_t[0][j])"
     GI1, GI2 = "result[5](ghost.x1)[0][j]", "result[5](ghost.x2)[0][j]"
     c.ens("inverse_increasing_affine", "forall(self.D, lambda j: implies(not " + FL_ + " and ghost.x1[0][j] < ghost.x2[0][j], " + GI1 + " < " + GI2 + "))", top=True, props=["C11"])
@@ -137,3 +147,25 @@ def _(c):
     c.ens("round_trip_affine", "forall(self.D, lambda j: implies(not " + FL_ + ", " + RT + "))", top=True, props=["C11"])
     # round trip for log coordinates (exp(log x) through the affine map) is left to the bounded sampling check: the chained
     # nonlinear + uninterpreted exp/log query does not discharge reliably within the budget
+
+
+@contract(VT + ".__init__", serves=["C01", "C11"], mode="ext")
+def _(c):
+    """The constructor establishes the transformer's invariant that the other contracts assume: the original hard bounds are
+    recorded unchanged, ordered, with the dimension - or ValueError is raised (by the bound checks of the hypercube set-up)."""
+    c.ints("D")
+    c.arr("lower_bounds", 2, [1, "D"], ext="lo")
+    c.arr("upper_bounds", 2, [1, "D"], ext="hi")
+    c.arr("plausible_lower_bounds", 2, [1, "D"])
+    c.arr("plausible_upper_bounds", 2, [1, "D"])
+    vt_types(c, "self")
+    c.req("dimension", "D >= 1", props=["C01", "C11"])
+    c.arr("apply_log_t", 2, [1, "D"], ext=True)
+    # BADS passes a flag vector that is NaN ("decide by the rule") or 0 ("never") per coordinate
+    c.req("flag_nan_or_zero", "forall(D, lambda j: isnan(apply_log_t[0][j]) or apply_log_t[0][j] == 0)", props=["C01", "C11"])
+    c.prune_branches = True  # with an array flag vector the None / scalar branches of the flag set-up are dead
+    c.mod_prefix("self")
+    c.may_raise("ValueError")
+    c.ens("original_hard_bounds_recorded", "self.D == D and forall(D, lambda j: same(self.orig_lb[0][j], lower_bounds[0][j]) and same(self.orig_ub[0][j], upper_bounds[0][j]))",
+          top=True, props=["C01", "C11"])
+    c.ens("hard_bounds_ordered", "forall(D, lambda j: self.orig_lb[0][j] <= self.orig_ub[0][j])", top=True, props=["C01", "C11"])
